@@ -49,13 +49,14 @@ type Ctx struct {
 	Floors    map[string]int
 	Start     time.Time
 	Known     []KnownFinding
+	Configs   []string // extra build configurations merged in (thorough tier)
 	LoadStats map[string]int
 }
 
 // Load type-checks ./... of repo and builds SSA for it.  Any type error, an
 // empty package list or a go list failure is a hard failure: nothing could
 // be decided.
-func Load(repo, tier string, tests bool) (*Ctx, error) {
+func Load(repo, tier string, tests bool, extraEnv ...string) (*Ctx, error) {
 	c := &Ctx{Repo: repo, Tier: tier, Start: time.Now(),
 		ByPath: map[string]*packages.Package{}, SSA: map[string]*ssa.Package{},
 		RuleDocs: map[string]string{}, Floors: map[string]int{}, LoadStats: map[string]int{}}
@@ -70,6 +71,7 @@ func Load(repo, tier string, tests bool) (*Ctx, error) {
 		env = append(env, e)
 	}
 	env = append(env, "GOFLAGS=-mod=readonly", "GOWORK=off", "GOPROXY=off", "GOSUMDB=off", "GOTOOLCHAIN=local")
+	env = append(env, extraEnv...)
 	cfg := &packages.Config{
 		Mode:  packages.LoadAllSyntax,
 		Dir:   repo,
